@@ -43,7 +43,10 @@ fn answer(tag: &str, method: &str, log: &Log, req: Request<Msg>) -> Result<Respo
     log.lock().unwrap().push(format!("{tag}.{method}"));
     let m = req.into_inner();
     if m.s == "fail" {
-        Err(Status::new_with_message(StatusCode::BadRequest, format!("no {}", m.a)).with_header("why", "because"))
+        // the handler's own message must win over a forwarded "status-message" header
+        Err(Status::new_with_message(StatusCode::BadRequest, format!("no {}", m.a))
+            .with_header("why", "because")
+            .with_header("status-message", "forwarded from downstream"))
     } else {
         Ok(Response::new(Msg { a: m.a + 1, s: format!("{tag}.{method}:{}", m.s) }).with_header("extra", "kept"))
     }
